@@ -200,12 +200,14 @@ def run(ctx, anchors=None):
     # ---- R03.6 agreement with the batch twin, on the accepting paths of both
     c03_setup.check_agreement(ctx, fb, prog)
     c03_setup.check_initial_stack(ctx, fb, prog)
+    c03_setup.check_scripts_validated(ctx, fb, prog)
     amt = [n for n in cf.nodes() if n["k"] == "assign" and "amounts[txin_index]" in _X(cf, n["lhs"])]
     ctx.inst(bool(amt) and "vout[txin_vout_index]" in _cm.xstr(cf, amt[0]["rhs"], KEEP).replace(" ", "") and _cm.xstr(cf, amt[0]["rhs"], KEEP).endswith(".nValue"), "R03.6", "amount-from-spent-output", cf.loc(amt[0]) if amt else cf.loc(),
              "the amount of the debugged input is taken from the referenced output")
 
 
 MUTANTS = [
+    dict(name="legacy-scripts-not-validated", file="instance.cpp", find="        if (!scriptSig.HasValidOps() || !scriptPubKey.HasValidOps()) {", replace="        if (false) {", expect=["R03.6:scripts-validated-before-the-session"]),
     dict(name="annex-pushed-as-argument", file="instance.cpp", find="                wstack_to_stack = stack.size(); // the annex, if any, is not an argument\n", replace="", expect=["R03.6:initial-stack-excludes-annex-control-script"]),
     dict(name="witness-items-through-the-text-parser", file="instance.cpp", find="            stack.push_back(wstack[i]);\n", replace="            stack.push_back(Value(HexStr(wstack[i]).c_str()).data_value());\n", expect=["R03.6:witness-items-verbatim"]),
     dict(name="p2sh-mark-survives-the-redeem-script", file="debugger/interpreter.cpp", find="            // Restore stack.\n            is_p2sh = false;\n", replace="            // Restore stack.\n", expect=["R03.5:p2sh-continuation-once"]),
